@@ -61,7 +61,7 @@ def ring1(ctx, b):
                 seed0 = ctx.seed % 100000 + n * 7919
                 conc = fconc if fconc is not None else (1 if (NC > 1 and n % 2 == 1) else 0)        # every client with a caller thread of its own / one caller thread
                 if fconc:
-                    runs = 500 if ctx.quick() else 2000
+                    runs = 500 if ctx.quick() else 1200
                 p = subprocess.run([prog, out, str(P), str(J), str(ordered), str(NC), str(runs), str(seed0), str(sp), str(mode), str(npre), str(conc)],
                                    stdout=subprocess.PIPE, stderr=subprocess.PIPE, text=True, timeout=600)
                 ctx.add("schedules", runs)
